@@ -119,9 +119,9 @@ type modEntry struct {
 }
 
 type fnSummary struct {
-	Mod         map[modEntry]map[*WriteSite]bool
-	Ret         []Origin
-	RetContents []Origin // contents of fresh containers returned as result j
+	Mod           map[modEntry]map[*WriteSite]bool
+	Ret           []Origin
+	RetContents   []Origin // contents of fresh containers returned as result j
 	RetOK         []Origin // the same, restricted to returns whose error result is not provably non-nil
 	RetOKContents []Origin
 }
